@@ -7,6 +7,7 @@ mod suite05;
 mod suite06;
 mod suite07;
 mod suite13;
+mod suite19;
 
 use common::Rng;
 use std::io::{BufRead, Write};
@@ -21,6 +22,7 @@ fn exec(suite: u32, input: &[u64]) -> Vec<u64> {
         60 => suite06::exec(input),
         70 => suite07::exec(input),
         130 => suite13::exec(input),
+        190 => suite19::exec(input),
         _ => vec![998],
     });
     match r {
@@ -80,6 +82,7 @@ fn main() {
                 60 => suite06::gen(tier, &mut rng, &mut emit),
                 70 => suite07::gen(tier, &mut rng, &mut emit),
                 130 => suite13::gen(tier, &mut rng, &mut emit),
+                190 => suite19::gen(tier, &mut rng, &mut emit),
                 _ => {}
             }
         }
